@@ -526,7 +526,7 @@ func ruleR01d(c *Ctx) {
 				if tv, ok := pf.info.Types[cl]; ok {
 					if r, tn, ok := relPkgOfType(tv.Type); ok && r == "ast" {
 						if _, isStruct := tv.Type.Underlying().(*types.Struct); isStruct {
-							if _, seen := built[tn]; !seen {
+							if at, seen := built[tn]; !seen || cl.Pos() < at {
 								built[tn] = cl.Pos()
 							}
 						}
